@@ -159,7 +159,12 @@ def build_operand(world, ai, r):
     if k == 'kv':
         return alg.multivector(keys=tuple(r['keys']), values=_vals(r['vals'], r.get('cont', 'list')))
     if k == 'fkv':
-        return MultiVector.fromkeysvalues(alg, tuple(r['keys']), _vals(r['vals'], r.get('cont', 'list')))
+        keys = tuple(r['keys'])
+        if r.get('keys_as') == 'list':
+            keys = list(keys)                 # fromkeysvalues does not normalise its arguments
+        elif r.get('keys_as') == 'nd':
+            keys = np.array(keys, dtype=int)
+        return MultiVector.fromkeysvalues(alg, keys, _vals(r['vals'], r.get('cont', 'list')))
     if k == 'kw':
         return alg.multivector(**{b: dec(v) for b, v in r['items']})
     if k == 'map':
